@@ -1,6 +1,8 @@
 package sim
 
 import (
+	"strings"
+	"sort"
 	"bytes"
 	"fmt"
 	"math/big"
@@ -111,8 +113,10 @@ func c18GenOps(T *Tape, sc *sharedCodecs, task int, n int, fo *c18Focus) []share
 	versions := allVersions
 	for j := 0; j < n; j++ {
 		tag := fmt.Sprintf("t%d.%d", task, j)
-		opkind := T.Draw("opkind", 5)
+		opkind := T.Draw("opkind", 6)
 		switch fo.kind {
+		case 5:
+			opkind = 5
 		case 1:
 			opkind = 0
 		case 2:
@@ -241,11 +245,42 @@ func c18GenOps(T *Tape, sc *sharedCodecs, task int, n int, fo *c18Focus) []share
 				}
 				return append(append([]byte(nil), c.Bytes()...), d.Bytes()...), nil
 			}})
+		case 5: // type descriptors: nested data types written and read back through the datatype package
+			v := versions[T.Draw("version", len(versions))]
+			depth := 1 + T.Draw("dt.depth", 10)
+			var dt datatype.DataType = []datatype.DataType{datatype.Int, datatype.Varchar, datatype.Uuid}[T.Draw("dt.leaf", 3)]
+			for d := 1; d < depth; d++ {
+				switch T.Draw("dt.shape", 3) {
+				case 0:
+					dt = datatype.NewList(dt)
+				case 1:
+					dt = datatype.NewSet(dt)
+				default:
+					dt = datatype.NewMap(datatype.Varchar, dt)
+				}
+			}
+			ops = append(ops, shareOp{name: fmt.Sprintf("%s:datatype/depth%d", tag, depth), run: func() (interface{}, error) {
+				var buf bytes.Buffer
+				if err := datatype.WriteDataType(dt, &buf, v); err != nil {
+					return nil, err
+				}
+				back, err := datatype.ReadDataType(bytes.NewReader(buf.Bytes()), v)
+				if err != nil {
+					return nil, err
+				}
+				if fmt.Sprint(back) != fmt.Sprint(dt) {
+					return nil, fmt.Errorf("ReadDataType(WriteDataType(t)) != t: %v vs %v", back, dt)
+				}
+				return append([]byte(nil), buf.Bytes()...), nil
+			}})
 		default: // CQL value codecs: package singletons and shared composite codecs
 			v := versions[T.Draw("version", len(versions))]
-			k := T.Draw("dtype", 18)
+			k := T.Draw("dtype", 21)
 			if fo.kind == 4 && T.Bool("samedtype", 0.7) {
 				k = fo.dtype
+				if k >= 18 {
+					k = 18 + T.Draw("dtype.free", 3) // the three collection kinds decoded into interface{}, mixed
+				}
 			}
 			x := int64(T.Draw("val", 1<<20)) - 1<<19
 			ops = append(ops, shareOp{name: fmt.Sprintf("%s:datacodec/%d", tag, k), run: func() (interface{}, error) { return c18Value(sc, k, x, v) }})
@@ -270,7 +305,11 @@ func c18Value(sc *sharedCodecs, k int, x int64, v primitive.ProtocolVersion) (in
 		if err != nil {
 			return nil, err
 		}
-		return rt{Enc: enc, Dec: reflect.ValueOf(dest).Elem().Interface(), Nul: wasNull}, nil
+		dec := reflect.ValueOf(dest).Elem().Interface()
+		if _, free := dest.(*interface{}); free {
+			dec = canon(reflect.ValueOf(dec)) // pointer-keyed maps and pointer elements compare by content
+		}
+		return rt{Enc: enc, Dec: dec, Nul: wasNull}, nil
 	}
 	s := fmt.Sprintf("v%d", x)
 	switch k {
@@ -327,6 +366,15 @@ func c18Value(sc *sharedCodecs, k int, x int64, v primitive.ProtocolVersion) (in
 		}
 		var d []interface{}
 		return rtrip(sc.tuple, []interface{}{int32(x), s}, &d)
+	case 18: // collections decoded into interface{}: the codec picks the Go type itself
+		var d interface{}
+		return rtrip(sc.list, []int32{int32(x), 7}, &d)
+	case 19:
+		var d interface{}
+		return rtrip(sc.set, []string{s, "b"}, &d)
+	case 20:
+		var d interface{}
+		return rtrip(sc.mp, map[string]int32{s: int32(x)}, &d)
 	case 16: // user-defined type mapped to a Go struct (by field tag) and to a map
 		if v < primitive.ProtocolVersion3 || sc.udt == nil {
 			var d string
@@ -365,13 +413,13 @@ func c18Share(r *Run) {
 	r.Config["first_use"] = []string{"sequential (warm instances)", "concurrent (fresh instances, warm package state)", "concurrent (fresh instances, cold package state)"}[mode]
 	fo := &c18Focus{}
 	if T.Bool("focus", 0.4) {
-		fo.kind = 1 + T.Draw("focus.kind", 4)
+		fo.kind = 1 + T.Draw("focus.kind", 5)
 		fo.codec = T.Draw("focus.codec", 6)
-		fo.dtype = 11 + T.Draw("focus.dtype", 7)
+		fo.dtype = 11 + T.Draw("focus.dtype", 10)
 		fo.growing = T.Bool("focus.growing", 0.5)
 		M = 3 + T.Draw("focus.tasks", 4)
 	}
-	r.Config["focus"] = []string{"everything", "frames of one codec", "segments of one codec", "one compressor", "value codecs"}[fo.kind]
+	r.Config["focus"] = []string{"everything", "frames of one codec", "segments of one codec", "one compressor", "value codecs", "nested type descriptors"}[fo.kind]
 	var all [][]shareOp
 	total := 0
 	for t := 0; t < M; t++ {
@@ -481,4 +529,33 @@ func c18OpClass(name string) string {
 		}
 	}
 	return name
+}
+
+// canon renders a decoded value by content: pointers are followed, map entries sorted.
+func canon(v reflect.Value) string {
+	if !v.IsValid() {
+		return "<invalid>"
+	}
+	switch v.Kind() {
+	case reflect.Ptr, reflect.Interface:
+		if v.IsNil() {
+			return "nil"
+		}
+		return "&" + canon(v.Elem())
+	case reflect.Slice, reflect.Array:
+		parts := make([]string, v.Len())
+		for i := range parts {
+			parts[i] = canon(v.Index(i))
+		}
+		return v.Type().String() + "[" + strings.Join(parts, " ") + "]"
+	case reflect.Map:
+		var parts []string
+		it := v.MapRange()
+		for it.Next() {
+			parts = append(parts, canon(it.Key())+":"+canon(it.Value()))
+		}
+		sort.Strings(parts)
+		return v.Type().String() + "{" + strings.Join(parts, " ") + "}"
+	}
+	return fmt.Sprintf("%v", v.Interface())
 }
